@@ -4,7 +4,7 @@
   bit masks. Everything here is generic in the tables; `Props/C17` instantiates it on `Gen.*`.
 -/
 import KmipModel.Model.Registry
-namespace Kmip
+namespace Kmip.Reg
 
 /-! ## association lists -/
 
@@ -1168,4 +1168,4 @@ theorem maskUnmarshal_roundtrip {names : List Nat} {byName : Table} (ok : MaskOk
       rw [this, filter_nonempty_toks ht]
       exact hall
 
-end Kmip
+end Kmip.Reg
